@@ -118,8 +118,8 @@ def _long_program(rng, tier, run):
     """Volume: chains tens to hundreds of derivations deep, dozens of siblings of one parent with
     pairwise different delimiter lists (and then the early ones again), longer inputs."""
     big = tier == 'thorough'
-    shape = rng.choice(['chain', 'chain', 'fan', 'fan', 'tree'])
-    n = rng.choice([40, 70, 110]) if not big else rng.choice([60, 120, 250, 400])
+    shape = rng.choice(['chain', 'chain', 'cycle', 'fan', 'fan', 'tree'])
+    n = rng.choice([45, 70, 110]) if not big else rng.choice([60, 120, 250, 400])
     f = {}
     if rng.random() < 0.5:
         f['latex_context'] = rng.choice(['default', 'small'])
@@ -134,8 +134,20 @@ def _long_program(rng, tier, run):
         ops[0][1]['sim_flag'] = rng.randrange(1, 3)
     other_fields = [k for k in DOM if k not in MATH_CONE and k != 'latex_context']
 
+    mathy = rng.random() < 0.5      # swarm: half of the histories mostly move in and out of math mode
+
     def step_change():
         y = rng.random()
+        if mathy:
+            if y < 0.25:
+                # '$' is the delimiter whose closing is ambiguous ('$$' may be one token or two)
+                return {'in_math_mode': True, 'math_mode_delimiter': '$' if rng.random() < 0.5 else
+                        rng.choice(DOM['math_mode_delimiter'][1:])}
+            if y < 0.45:
+                return {'in_math_mode': False}
+            if y < 0.65:
+                return {'in_math_mode': True}
+            y = (y - 0.65) / 0.35 * 0.54 + 0.46
         if y < 0.22:
             return {'in_math_mode': True, 'math_mode_delimiter': rng.choice(DOM['math_mode_delimiter'])}
         if y < 0.38:
@@ -162,9 +174,41 @@ def _long_program(rng, tier, run):
             ops.append(['derive', parent, ch])
         if rng.random() < 0.2:
             ops[-1].append('@lazy')
-    if shape == 'chain':
-        for _ in range(n):
-            emit(-1, step_change())
+    def motif():
+        """Short sequences that matter together: enter math with a delimiter, leave, enter without one;
+        set a field, change it, put it back; replace a list while something that depends on it stays."""
+        d = rng.choice(DOM['math_mode_delimiter'][1:])
+        y = rng.random()
+        if y < 0.4:
+            return [{'in_math_mode': True, 'math_mode_delimiter': d}, {'in_math_mode': False}, {'in_math_mode': True}]
+        if y < 0.55:
+            return [{'in_math_mode': True, 'math_mode_delimiter': d}, {'in_math_mode': False},
+                    {'in_math_mode': True, 'math_mode_delimiter': rng.choice(DOM['math_mode_delimiter'])}]
+        k = rng.choice(sorted(DOM))
+        a, b = rng.choice(DOM[k]), rng.choice(DOM[k])
+        if y < 0.8:
+            return [{k: a}, {k: b}, {k: a}]
+        k2 = rng.choice(DELIM_LISTS)
+        return [{k2: rich_list(rng, k2)}, {'in_math_mode': True, 'math_mode_delimiter': d}, {k2: rng.choice(DOM[k2])}]
+    if shape == 'cycle':
+        # one short motif repeated all along the chain, with a little noise that shifts its alignment:
+        # whatever depends on the *position* in the chain (a depth limit, a generation counter) meets
+        # every phase of the motif
+        m = motif()
+        if rng.random() < 0.5:
+            m = [{'in_math_mode': True, 'math_mode_delimiter': '$'}, {'in_math_mode': False}, {'in_math_mode': True}]
+        while len(ops) < n:
+            for ch in m:
+                ops.append(['derive', -1, ch])
+                if rng.random() < 0.1:
+                    emit(-1, step_change())
+    elif shape == 'chain':
+        while len(ops) < n:
+            if rng.random() < 0.12:
+                for ch in motif():
+                    ops.append(['derive', -1, ch])
+            else:
+                emit(-1, step_change())
     elif shape == 'fan':
         pre = rng.randint(0, 4)
         for _ in range(pre):
@@ -200,7 +244,7 @@ def _long_program(rng, tier, run):
 
 
 def generate(rng, tier, run):
-    if run % 50 == 49:
+    if run % 25 == 24:
         return _long_program(rng, tier, run)
     batch = 'plain' if run % 10 < 8 else 'rejected'
     if tier == 'thorough' and rng.random() < 0.3:
@@ -537,7 +581,7 @@ def execute(program):
         hundreds of states) a rotating slice -- every string still meets every few states."""
         if not light:
             return base_strings, parse_strings
-        return base_strings[opi % 5::5], parse_strings[opi % 7::7]
+        return base_strings[opi % 3::3], parse_strings[opi % 7::7]
 
     def compare_with_fresh(ps, opi, idx, strings, parse_strings=parse_strings):
         fields = ps.get_fields()
